@@ -254,6 +254,7 @@ def shards(tier, seed):
         d = dict(name=name, fn="h_t2s", kwargs=kw, budget=budget, per_path=60)
         if eng:
             d["engine"] = eng
+            d["budget"] = 3 * budget  # the direct engine's budget is wall-clock time
         out.append(d)
 
     for lo_open in (0, 1):
@@ -279,8 +280,8 @@ def shards(tier, seed):
                nmode="changed")
             sh(f"inst-lowerfl-{tag}-eps", sk="inst", lo_open=lo_open, hi_open=hi_open, sym=dict(ku=[0, 8], n0=[0, 8]), bound="lower",
                nmode="changed", eps="1/8")
-    out.append(dict(name="env-nonglobal", fn="h_env", kwargs=dict(use_global=False), budget=60, engine="direct"))
-    out.append(dict(name="env-global", fn="h_env", kwargs=dict(use_global=True), budget=60, engine="direct"))
+    out.append(dict(name="env-nonglobal", fn="h_env", kwargs=dict(use_global=False), budget=300, engine="direct"))
+    out.append(dict(name="env-global", fn="h_env", kwargs=dict(use_global=True), budget=300, engine="direct"))
     return out
 
 
